@@ -1855,6 +1855,47 @@ func (c *Case) crossCheckLists() {
 			c.diverge("list-operations-fields-differ", []string{"C03"}, "operation %s priority/digest differ", o.Name)
 			return
 		}
+		// The time at which an operation without waiters is removed.
+		if cleanupActive(mo.cleanup) != (o.Timeout != nil) || (o.Timeout != nil && !o.Timeout.AsTime().Equal(mo.cleanup.at)) {
+			c.diverge("operation-removal-deadline-differs", []string{"C06"}, "operation %s: removal scheduled at %v, the model says active=%v at %v (waiters %d)", o.Name, o.Timeout.AsTime(), cleanupActive(mo.cleanup), cleanupAt(mo.cleanup), mo.Waiters)
+			return
+		}
+	}
+	// Platform queues: names, size classes, worker counts, removal deadlines.
+	pqr, err := c.Env.BQ.ListPlatformQueues(ctx, &emptypb.Empty{})
+	if err != nil {
+		c.diverge("list-platform-queues-failed", []string{"C05"}, "%v", err)
+		return
+	}
+	if len(pqr.PlatformQueues) != len(c.M.PQs) {
+		c.diverge("list-platform-queues-count-differs", []string{"C05", "C06"}, "%d platform queues listed, the model has %d", len(pqr.PlatformQueues), len(c.M.PQs))
+		return
+	}
+	for _, pqs := range pqr.PlatformQueues {
+		var props [][2]string
+		for _, pr := range pqs.Name.GetPlatform().GetProperties() {
+			props = append(props, [2]string{pr.Name, pr.Value})
+		}
+		mpq := c.M.findPQExact(pqs.Name.GetInstanceNamePrefix(), CanonPlatform(props))
+		if mpq == nil {
+			c.diverge("list-platform-queues-unknown-queue", []string{"C05"}, "platform queue %q %s is unknown to the model", pqs.Name.GetInstanceNamePrefix(), CanonPlatform(props))
+			return
+		}
+		if len(pqs.SizeClassQueues) != len(mpq.SCQs) {
+			c.diverge("list-platform-queues-size-classes-differ", []string{"C05", "C06"}, "platform queue %q %s lists %d size classes, the model %d", mpq.Prefix, mpq.Platform, len(pqs.SizeClassQueues), len(mpq.SCQs))
+			return
+		}
+		for k, sq := range pqs.SizeClassQueues {
+			ms := mpq.SCQs[k]
+			if sq.SizeClass != ms.SizeClass || int(sq.WorkersCount) != len(ms.Workers) || int(sq.DrainsCount) != len(ms.Drains) {
+				c.diverge("list-platform-queues-fields-differ", []string{"C05"}, "size class queue %q %s/%d: listed size class %d workers %d drains %d, model workers %d drains %d", mpq.Prefix, mpq.Platform, ms.SizeClass, sq.SizeClass, sq.WorkersCount, sq.DrainsCount, len(ms.Workers), len(ms.Drains))
+				return
+			}
+			if cleanupActive(ms.cleanup) != (sq.Timeout != nil) || (sq.Timeout != nil && !sq.Timeout.AsTime().Equal(ms.cleanup.at)) {
+				c.diverge("queue-removal-deadline-differs", []string{"C06"}, "size class queue %q %s/%d: removal scheduled at %v, the model says active=%v at %v", mpq.Prefix, mpq.Platform, ms.SizeClass, sq.Timeout.AsTime(), cleanupActive(ms.cleanup), cleanupAt(ms.cleanup))
+				return
+			}
+		}
 	}
 	// Queue order views (C04): ListQueuedOperations and
 	// ListInvocationChildren(QUEUED) for every invocation that has them.
@@ -1921,6 +1962,22 @@ func (c *Case) crossCheckLists() {
 		if c.stop {
 			return
 		}
+		// Drains.
+		dr, err := c.Env.BQ.ListDrains(ctx, &buildqueuestate.ListDrainsRequest{SizeClassQueueName: scqName(q)})
+		if err != nil {
+			c.diverge("list-drains-failed", []string{"C05"}, "%v", err)
+			return
+		}
+		if len(dr.Drains) != len(scq.Drains) {
+			c.diverge("list-drains-count-differs", []string{"C05"}, "queue %v lists %d drains, the model %d", q, len(dr.Drains), len(scq.Drains))
+			return
+		}
+		for _, d := range dr.Drains {
+			if _, ok := scq.Drains[workerKey(d.WorkerIdPattern)]; !ok {
+				c.diverge("list-drains-unknown-drain", []string{"C05"}, "queue %v lists drain %v, unknown to the model", q, d.WorkerIdPattern)
+				return
+			}
+		}
 		// Workers.
 		wr, err := c.Env.BQ.ListWorkers(ctx, &buildqueuestate.ListWorkersRequest{Filter: &buildqueuestate.ListWorkersRequest_Filter{Type: &buildqueuestate.ListWorkersRequest_Filter_All{All: scqName(q)}}, PageSize: 1000})
 		if err != nil {
@@ -1935,6 +1992,10 @@ func (c *Case) crossCheckLists() {
 			mw := scq.Workers[workerKey(ws.Id)]
 			if mw == nil {
 				c.diverge("list-workers-unknown", []string{"C06"}, "worker %v unknown to the model", ws.Id)
+				return
+			}
+			if cleanupActive(mw.cleanup) != (ws.Timeout != nil) || (ws.Timeout != nil && !ws.Timeout.AsTime().Equal(mw.cleanup.at)) {
+				c.diverge("worker-removal-deadline-differs", []string{"C06"}, "worker %s: removal scheduled at %v, the model says active=%v at %v", mw.Key, ws.Timeout.AsTime(), cleanupActive(mw.cleanup), cleanupAt(mw.cleanup))
 				return
 			}
 			if ws.Drained != mw.isDrained() {
@@ -2184,4 +2245,11 @@ func (c *Case) scenarioPrelude() []Step {
 		}
 	}
 	return nil
+}
+
+func cleanupAt(c *mCleanup) time.Time {
+	if c == nil {
+		return time.Time{}
+	}
+	return c.at
 }
